@@ -254,8 +254,8 @@ type tailBuffer struct{ b []byte }
 
 func (t *tailBuffer) Write(p []byte) (int, error) {
 	t.b = append(t.b, p...)
-	if len(t.b) > 6000 {
-		t.b = t.b[len(t.b)-6000:]
+	if len(t.b) > 400000 {
+		t.b = t.b[len(t.b)-300000:]
 	}
 	return len(p), nil
 }
@@ -277,8 +277,21 @@ func allocBudgetFor(in []byte, c0 uint64) uint64 {
 	return b
 }
 
+// RefineTag, if set by a package's harness, may replace the tag of a failure by a more specific one that
+// names the root cause (call site), so that a recorded finding is told apart from any other failure of the
+// same kind.
+var RefineTag func(tag string, input []byte, r *ChildResult) string
+
 // JudgeChild turns a child result into a failure (tag, message) or ("", "").
 func JudgeChild(r *ChildResult, input []byte, c0 uint64, recoveredPanicOK bool) (tag, msg string) {
+	tag, msg = judgeChild(r, input, c0, recoveredPanicOK)
+	if tag != "" && RefineTag != nil {
+		tag = RefineTag(tag, input, r)
+	}
+	return
+}
+
+func judgeChild(r *ChildResult, input []byte, c0 uint64, recoveredPanicOK bool) (tag, msg string) {
 	in := input
 	if len(in) > 96 {
 		in = in[:96]
